@@ -44,6 +44,8 @@ static struct iv_event cmd_ev[2];
 static volatile int cmd_done[2];
 static int cmd_op[2], cmd_arg[2];
 static volatile int never;
+static volatile int burst_done;
+static int burst_left;
 static volatile int driver_done;
 static int loops_should_exit;
 static int hbudget;
@@ -291,7 +293,7 @@ static void driver(void *dummy)
 		if (steps != 0) { menu[n] = 1; arg[n++] = -1; }
 		menu[n] = 1; arg[n++] = 0;
 		menu[n] = 1; arg[n++] = 1;
-		if (have_usr2) { menu[n] = 5; arg[n++] = -1; menu[n] = 5; arg[n++] = 0; }
+		if (have_usr2) { menu[n] = 5; arg[n++] = -1; menu[n] = 5; arg[n++] = 0; menu[n] = 6; arg[n++] = 0; }
 		for (i = 0; i < NI; i++)
 			if (I[i].present) { menu[n] = I[i].reg ? 3 : 2; arg[n++] = i; }
 		menu[n] = 4; arg[n++] = 0;
@@ -318,6 +320,20 @@ static void driver(void *dummy)
 			}
 			break;
 		}
+		case 6:
+			/* both signal numbers hit loop 0 back to back: the second may arrive while the first one's handler
+			 * is inside the library (its lock and wake-up writes are scheduling points during this burst) */
+			if (!others_for(SIGUSR1) || !others_for(SIGUSR2))
+				break;
+			mc_obs("D:burst USR1+USR2->L0");
+			burst_left = 2;
+			sched_signal_atomic = 0;
+			sched_signal(tid_of[0], SIGUSR1);
+			sched_signal(tid_of[0], SIGUSR2);
+			sched_wait_flag(&burst_done);
+			burst_done = 0;
+			sched_signal_atomic = 1;
+			break;
 		case 2: command(I[arg[c]].thr, C_REG, arg[c]); break;
 		case 3: command(I[arg[c]].thr, C_UNREG, arg[c]); break;
 		case 4: {
@@ -381,10 +397,18 @@ static int on_signal(int tid, int sig)
 		/* the last interest went away meanwhile: with the default disposition restored the signal
 		 * would terminate the process, which is the application's business, not a scenario */
 		mc_obs("L%d:sig-dropped", l);
+		if (burst_left > 0 && --burst_left == 0) {
+			burst_done = 1;
+			sched_publish();
+		}
 		return 0;
 	}
 	mc_obs("L%d:sig%d-arrives", l, sig);
 	model_deliver(l, sig);
+	if (burst_left > 0 && --burst_left == 0) {
+		burst_done = 1;
+		sched_publish();
+	}
 	return 1;
 }
 
